@@ -388,6 +388,10 @@ func (ea *ErrAnalysis) callClass(call *ssa.Call, f *ssa.Function, seen map[ssa.V
 		if n := ea.c.P.CallGraph().Nodes[f]; n != nil {
 			for _, e := range n.Out {
 				if e.Site == ssa.CallInstruction(call) && core.InModule(e.Callee.Func) && !strings.Contains(core.FuncName(e.Callee.Func), "Mock") {
+					// the capture layer of a secondary build (e.g. /dev/bpf on darwin) is outside the claim: plain I/O there
+					if file, _ := ea.c.P.Pos(e.Callee.Func.Pos()); ea.c.P.GOOS != "linux" && strings.HasSuffix(file, "_"+ea.c.P.GOOS+".go") {
+						continue
+					}
 					impls = append(impls, e.Callee.Func)
 				}
 			}
